@@ -6,7 +6,7 @@ From RopeVerif.Lib Require Import Text.
 From RopeVerif.C12 Require Import Serializer Persist PersistRunner Sessions.
 Import ListNotations.
 
-(* one undo() / redo() step: kind 0 = undo, 1 = redo; lists before and after *)
+(* one navigation step: kind 0 = undo(), 1 = redo(), 2 = undo(drop=True), 3 = clear(); lists before and after *)
 Record ncase := {
   nc_kind : N;
   nc_undo : list change;
@@ -16,8 +16,8 @@ Record ncase := {
 }.
 Definition run_ncase (c : ncase) : N :=
   let h0 := {| undo_list := nc_undo c; redo_list := nc_redo c |} in
-  if N.eqb (nc_kind c) 0 then
-    let h := hist_undo h0 in
+  if negb (N.eqb (nc_kind c) 1) then
+    let h := if N.eqb (nc_kind c) 0 then hist_undo h0 else if N.eqb (nc_kind c) 2 then hist_undo_drop h0 else hist_clear h0 in
     if list_change_eqb (undo_list h) (nc_undo_after c) && list_change_eqb (redo_list h) (nc_redo_after c)
     then 0%N else 1%N
   else
@@ -38,4 +38,4 @@ Fixpoint nmism_from (i : N) (cs : list ncase) : list (N * N) :=
 Definition nmismatches (cs : list ncase) : list (N * N) := nmism_from 0 cs.
 (* steps on an empty list (HistoryError, nothing moves) *)
 Definition count_empty_steps (cs : list ncase) : N :=
-  N.of_nat (length (filter (fun c => match (if N.eqb (nc_kind c) 0 then nc_undo c else nc_redo c) with [] => true | _ => false end) cs)).
+  N.of_nat (length (filter (fun c => match (if N.eqb (nc_kind c) 1 then nc_redo c else nc_undo c) with [] => true | _ => false end) cs)).
